@@ -578,7 +578,11 @@ static const char* walk_cause(Node* n, int dir) {
     }
     case K_ZIP: {
       for (size_t i = 0; i < n->nk; i++) if ((c0 = walk_cause(n->kid[i], dir))) return c0;
-      if (dir == 1 && n->nk >= 2) { size_t l0 = ref_of(n->kid[0]).n; for (size_t i = 1; i < n->nk; i++) if (ref_of(n->kid[i]).n != l0) return "kf-c11-zip-back"; }
+      if (dir == 1 && n->nk >= 2) {      /* F12: unequal lengths, none of them 0 (an empty input: Zip_Iter_Last answers Terminal at once) */
+        size_t l0 = ref_of(n->kid[0]).n; int uneq = 0, empty = 0;
+        for (size_t i = 0; i < n->nk; i++) { size_t li = ref_of(n->kid[i]).n; if (li != l0) uneq = 1; if (li == 0) empty = 1; }
+        if (uneq && !empty) return "kf-c11-zip-back";
+      }
       return NULL;
     }
     case K_ENUM: case K_FILTER: case K_MAP: return walk_cause(n->kid[0], dir);
@@ -952,7 +956,7 @@ static void worker(char** lines, size_t n, size_t from) {
   for (size_t li = from; li < n; li++) {
     char* l = lines[li];
     if (v_skippable(l)) continue;
-    sh->cur = li; alarm(20);
+    sh->cur = li; alarm(6);     /* an op takes milliseconds; a library loop that does not end is cut here */
     st_ops++;
     if (l[0] == 'W' && l[1] == ' ') { Node* e = parse_line(l + 2); if (!e) O("bad-op"); else op_walk(e, li + 1); }
     else if (l[0] == 'V' && l[1] == ' ') { Node* e = parse_line(l + 2); if (!e) O("bad-op"); else op_walk_macro(e, li + 1); }
